@@ -132,6 +132,11 @@ func (w *World) checkDeliveryDir(v *rpcView, dir string, sends []OpRec, recvs []
 			}
 			// for the request direction only sends that completed before the
 			// client's half-close count; they all do (same actor, sequential).
+			if dir == "request" && w.Wire.HalfClosedMidMessage(v.id) {
+				// the last message the caller submitted was cut short (its SendMsg failed half-way) and
+				// the request stream was then half-closed: that is not a normal end of the request stream
+				w.Violate("C01", "truncated-message-reported-as-end-of-stream", "rpc %s: the handler was told end-of-stream after %d message(s) although the request stream had been half-closed in the middle of a message (the rest of that message was dropped silently)\n%s", v.id, got, dumpRecs(v.all))
+			}
 			if got < want {
 				w.Violate("C01", "lost-message:"+dir, "rpc %s %s direction: receiver was told end-of-stream after %d message(s) but %d had been successfully submitted before\n%s", v.id, dir, got, want, dumpRecs(v.all))
 			}
